@@ -311,4 +311,58 @@ theorem epd7in5_update_frame_delivers (f : Feat) (d : DState) (b : Bytes) (u : U
   rw [e]
   exact d1.1
 
+/-! ## epd2in7b colour-plane updates -/
+
+/-- one complete data block outside partial mode, then a register command: the addressed plane IS the block,
+    the other plane is untouched -/
+theorem uc_block_stop (u : Uc) (plane : Nat) (cmd : UInt8) (hc : (cmd = 0x10 ∧ plane = 0) ∨ (cmd = 0x13 ∧ plane = 1))
+    (bs : List UInt8) (hu : u.asleep = false) (hp : u.partialOn = false) (h14 : u.has14 = true)
+    (hl : bs.length = (if plane = 0 then u.p1 else u.p2).size) :
+    (if plane = 0 then (u.run [Blk.c cmd bs, .c 0x11 []]).p1 else (u.run [Blk.c cmd bs, .c 0x11 []]).p2).toList = bs ∧
+    (if plane = 0 then (u.run [Blk.c cmd bs, .c 0x11 []]).p2 else (u.run [Blk.c cmd bs, .c 0x11 []]).p1)
+      = (if plane = 0 then u.p2 else u.p1) := by
+  have d1 := dtm_full u plane bs hp hl
+  have a1 := d1.2.2.2.2.2.1
+  have e : u.run [Blk.c cmd bs, .c 0x11 []] = (u.dtm plane bs).feed (.c 0x11 []) := by
+    rcases hc with ⟨rfl, rfl⟩ | ⟨rfl, rfl⟩ <;>
+      simp (config := {decide := true}) only [Uc.run, List.foldl, Uc.feed, hu, ↓reduceIte, Bool.false_eq_true]
+  have a3 : (u.dtm plane bs).asleep = false := by rw [a1]; exact hu
+  have k : ((u.dtm plane bs).feed (.c 0x11 [])).p1 = (u.dtm plane bs).p1 ∧ ((u.dtm plane bs).feed (.c 0x11 [])).p2 = (u.dtm plane bs).p2 := by
+    generalize u.dtm plane bs = z at a3 ⊢
+    simp (config := {decide := true}) only [Uc.feed, Uc.regStep, a3, ↓reduceIte, Bool.false_eq_true, and_false, and_self, false_and]
+  rw [e, k.1, k.2]
+  exact ⟨d1.1, d1.2.1⟩
+
+open Drivers.Epd2in7b in
+/-- **epd2in7b `update_achromatic_frame`, every buffer**: the B/W plane receives the inverted buffer, the chromatic
+    plane is untouched -/
+theorem epd2in7b_achromatic_delivers (f : Feat) (d : DState) (b : Bytes) (u : Uc)
+    (hu : u.asleep = false) (hp : u.partialOn = false) (h14 : u.has14 = true) (hl : b.length = u.p1.size) :
+    (u.run (blocksOf ((prog f d (.achro b)).getD []))).p1.toList = b.map (fun x => ~~~x) ∧
+    (u.run (blocksOf ((prog f d (.achro b)).getD []))).p2 = u.p2 := by
+  have e : (prog f d (.achro b)).getD [] = [] ++ Act.cmd 0x10 :: (dataEach (b.map (fun x => ~~~x)) ++ Act.cmd 0x11 :: []) := rfl
+  have hb : blocksOf ((prog f d (.achro b)).getD []) = [.c 0x10 (b.map (fun x => ~~~x) ++ []), .c 0x11 []] := by
+    rw [e, blocksOf_cmd_dataEach]; rfl
+  rw [hb]
+  simp only [List.append_nil]
+  have k := uc_block_stop u 0 0x10 (Or.inl ⟨rfl, rfl⟩) (b.map (fun x => ~~~x)) hu hp h14 (by simp only [↓reduceIte, List.length_map]; exact hl)
+  simp only [↓reduceIte] at k
+  exact k
+
+open Drivers.Epd2in7b in
+/-- **epd2in7b `update_chromatic_frame`, every buffer**: the chromatic plane receives the inverted buffer, the B/W
+    plane is untouched -/
+theorem epd2in7b_chromatic_delivers (f : Feat) (d : DState) (c : Bytes) (u : Uc)
+    (hu : u.asleep = false) (hp : u.partialOn = false) (h14 : u.has14 = true) (hl : c.length = u.p2.size) :
+    (u.run (blocksOf ((prog f d (.chro c)).getD []))).p2.toList = c.map (fun x => ~~~x) ∧
+    (u.run (blocksOf ((prog f d (.chro c)).getD []))).p1 = u.p1 := by
+  have e : (prog f d (.chro c)).getD [] = [] ++ Act.cmd 0x13 :: (dataEach (c.map (fun x => ~~~x)) ++ Act.cmd 0x11 :: [W]) := rfl
+  have hb : blocksOf ((prog f d (.chro c)).getD []) = [.c 0x13 (c.map (fun x => ~~~x) ++ []), .c 0x11 []] := by
+    rw [e, blocksOf_cmd_dataEach]; rfl
+  rw [hb]
+  simp only [List.append_nil]
+  have k := uc_block_stop u 1 0x13 (Or.inr ⟨rfl, rfl⟩) (c.map (fun x => ~~~x)) hu hp h14 (by simp only [Nat.one_ne_zero, ↓reduceIte, List.length_map]; exact hl)
+  simp only [Nat.one_ne_zero, ↓reduceIte] at k
+  exact k
+
 end EpdVerif.Props.C01
